@@ -52,7 +52,7 @@ def setup(E):
     def tapleaf_ctor(E, st, fr, I, A):
         this, index, script = A
         # make the leaf script's payload symbolic at the moment it is hashed (argv stays concrete, so parsing costs nothing)
-        if E.load(st, script, 1) == 2 and not st.aux.get('leaf_done_%d' % index):
+        if E.load(st, script, 1) == 2 and not st.aux.get('leaf_done_%d' % index) and (st.aux.get('symleaves') is None or index in st.aux['symleaves']):
             for j in range(2): E.store(st, script + 1 + j, 1, z3.BitVec('s%d_%d' % (index, j), 8))
             st.aux['leaf_done_%d' % index] = True
         return stubs.NOT_HANDLED
@@ -73,6 +73,10 @@ def obligations(tier, seed):
         obs.append(dict(name='tap/n%d/noindex' % n, kind='tap', n=n, idx=None, cost=2 ** n))
         for i in range(n):
             for par in (2, 3): obs.append(dict(name='tap/n%d/index%d/parity%d' % (n, i, par), kind='tap', n=n, idx=i, parity=par, cost=2 ** n))
+    # larger trees: only the spent leaf (and its neighbour) symbolic, the other leaves concrete - the sort order is explored along the proof path
+    for n in (range(5, 13) if tier == 'quick' else list(range(5, 25)) + [32, 33]):
+        for i in range(n):
+            obs.append(dict(name='tap/n%d/index%d/spent-leaf-symbolic' % (n, i), kind='tap', n=n, idx=i, parity=2 + (i & 1), symleaves=[i], cost=n))
     return obs
 
 def argv_for(ob, V=None):
@@ -101,6 +105,15 @@ def between(chars, start, end=b'\n'):
 def unhex(chars):
     f = lambda c: z3.If(z3.ULE(R.B(c), 57), R.B(c) - 48, R.B(c) - 87)
     return [z3.simplify((f(chars[2 * i]) << 4) | f(chars[2 * i + 1])) for i in range(len(chars) // 2)]
+
+def lex_lt(a, b):
+    """lexicographic a < b over byte lists, built exactly like the engine's memcmp model (so that the implementation's own comparison
+    terms and the reference's simplify to the same thing instead of leaving a 256-bit ULT-vs-bytewise equivalence to the solver)"""
+    r = z3.BitVecVal(0, 32)
+    for x, y in reversed(list(zip(a, b))):
+        X = R.B(x); Y = R.B(y)
+        r = z3.If(X == Y, r, z3.If(z3.UGT(X, Y), z3.BitVecVal(1, 32), z3.BitVecVal(0xffffffff, 32)))
+    return z3.simplify(r == 0xffffffff)
 
 def convertbits_8_to_5(bs):
     """BIP173 regrouping of bytes into 5-bit symbols with zero padding"""
@@ -140,7 +153,7 @@ def check_state(E, f, ob, key, scripts, res):
         k = hashref.tagged(b'TapLeaf', [0xc0] + hashref.compact_size(len(script)) + script)
         for j in range(m):
             node = ctl[33 + 32 * j: 65 + 32 * j]
-            lt = z3.ULT(stubs.cat(k, 8), stubs.cat(node, 8))
+            lt = lex_lt(k, node)
             if os.environ.get('VERIF_WITNESS_FLIP'): lt = z3.Not(lt)        # vacuity witness: with the reference order flipped the check must report a violation
             a = hashref.tagged(b'TapBranch', list(k) + list(node)); b = hashref.tagged(b'TapBranch', list(node) + list(k))
             k = [z3.simplify(z3.If(lt, R.B(x), R.B(y))) for x, y in zip(a, b)]
@@ -159,7 +172,7 @@ def check_state(E, f, ob, key, scripts, res):
 def run(E, ob):
     res = mkres(ob['name'])
     args, key, scripts = argv_for(ob)
-    st = E.new_state(); st.aux['tty'] = (1, 1, 1); st.aux['parity_in'] = ob.get('parity', 2)
+    st = E.new_state(); st.aux['tty'] = (1, 1, 1); st.aux['parity_in'] = ob.get('parity', 2); st.aux['symleaves'] = ob.get('symleaves')
     argc, av = procenv.make_argv(E, st, args)
     E.call(st, '@w_tap_main', [argc, av])
     fin = E.run(st)
